@@ -1,6 +1,6 @@
 """C14 — the default engine runs only SIMD code the CPU reports, and picks the best."""
 import re
-from . import core, summ
+from . import core, summ, c03
 from .core import callgraph, op_place
 
 EXPLANATION = (
@@ -242,6 +242,7 @@ def run(ctx):
     from . import c03
     ctx.guard('C14.analysable', ctx.shared, {'C03.e-kernel-siblings': 'C14.g-engines-identical'}, c03.kernel_siblings, ctx, {c: ctx.facts(c) for c in ('x86_64', 'aarch64')})
     for c in ('x86_64', 'aarch64'):
+        ctx.guard('C14.analysable', ctx.shared, {'C03.d-one-eval-poly': 'C14.g-engines-identical'}, c03.eval_poly, ctx, ctx.facts(c), c)
         ctx.guard('C14.analysable', ctx.shared, {'C03.a-schedule-siblings': 'C14.g-engines-identical'}, c03.schedules, ctx, ctx.facts(c), c)
         ctx.guard('C14.analysable', ctx.shared, {'C03.b-bounded-simd-access': 'C14.g-engines-identical'}, c03.bounded_access, ctx, ctx.facts(c), c)
     for cfg in cfgs:
@@ -473,7 +474,7 @@ def check_cfg(ctx, facts, cfg):
             if not okc:
                 f2 = facts.fns[caller]
                 cs = cg.callers.get(caller, set())
-                okc = (not f2.reachable) and cs and all(is_engine_eval_poly(c) and facts.fns[c].impl_self_adt == f2.impl_self_adt for c in cs)
+                okc = (not f2.reachable) and cs and all(is_engine_eval_poly(c) and c03.home_module(facts.fns[c]) is not None and c03.home_module(facts.fns[c]) == c03.home_module(f2) for c in cs)
             if okc:
                 ctx.ok('C14.f-eval-poly-dispatch', '%s@%s' % (caller, cfg), None)
             else:
